@@ -64,11 +64,27 @@ pub fn run_case(env: &Env, ctx: &mut Ctx, idx: u64) {
             Call { entry: e, src: s.to_string(), path: None, include_paths: vec![] }
         })
         .collect();
+    // the same relative header name resolves to different files under different include paths
+    let idir = ctx.tmpdir.join(format!("c19-{}", idx));
+    let inc_dirs: Vec<std::path::PathBuf> = (0..3).map(|k| idir.join(format!("inc{}", k))).collect();
+    for (k, d) in inc_dirs.iter().enumerate() {
+        let _ = std::fs::create_dir_all(d);
+        let _ = std::fs::write(d.join("cfg.svh"), format!("`define WIDTH {}\n`define FROM_{} 1\n", 8 << k, k));
+    }
     let mut lists: Vec<Vec<Call>> = Vec::new();
-    for _ in 0..nthreads {
+    for ti in 0..nthreads {
         let mut l = Vec::new();
         for _ in 0..per {
-            let c = match rng.below(10) {
+            let c = match rng.below(12) {
+                10 | 11 => {
+                    let d = inc_dirs[(ti + rng.below(2)) % inc_dirs.len()].clone();
+                    Call {
+                        entry: if rng.chance(1, 2) { Entry::PpStr } else { Entry::ParseSvStr },
+                        src: "`include \"cfg.svh\"\nmodule m; wire [`WIDTH-1:0] w;\n`ifdef FROM_1\nwire one;\n`endif\nendmodule\n".to_string(),
+                        path: None,
+                        include_paths: vec![d],
+                    }
+                }
                 0..=2 => shared[rng.below(shared.len())].clone(),
                 3..=5 => {
                     let (s, e) = *rng.pick(SENSITIVE);
@@ -184,6 +200,7 @@ pub fn run_case(env: &Env, ctx: &mut Ctx, idx: u64) {
         }
     }
     ctx.count("concurrent_calls", calls);
+    let _ = std::fs::remove_dir_all(&idir);
     if ctx.want_sample() {
         ctx.sample(
             Obj::new()
